@@ -152,6 +152,7 @@ func (s *SourceDescription) Unmarshal(rawPacket []byte) error {
 		return errWrongType
 	}
 
+	s.Chunks = nil
 	for i := headerLength; i < len(rawPacket); {
 		var chunk SourceDescriptionChunk
 		if err := chunk.Unmarshal(rawPacket[i:]); err != nil {
@@ -241,6 +242,7 @@ func (s *SourceDescriptionChunk) Unmarshal(rawPacket []byte) error {
 	}
 
 	s.Source = binary.BigEndian.Uint32(rawPacket)
+	s.Items = nil
 
 	for i := 4; i < len(rawPacket); {
 		if pktType := SDESType(rawPacket[i]); pktType == SDESEnd {
